@@ -13,7 +13,8 @@ Theorem C09_union : forall s l h o,
   let w := List.length (h_objs h) in let r := List.length (h_regs h) in
   exists h', apply_steps h o (s :: l) = (h', w) /\ wrapper_of h' w r /\
              r_func (get_reg h' r) = o /\ r_vals (get_reg h' r) = vals_of (s :: l) /\
-             r_patcher (get_reg h' r) = last_has (s :: l) None.
+             r_patcher (get_reg h' r) = last_has (s :: l) None /\
+             h_objs h' = (h_objs h ++ [{| o_kind := ODeal r; o_attr := Some r; o_wrapped := Some o; o_fkind := o_fkind (get_obj h o) |}])%list.
 Proof. exact union_fresh. Qed.
 Print Assumptions C09_union.
 (* further deal decorators on the result extend the same registry and return the same wrapper *)
@@ -22,7 +23,7 @@ Theorem C09_extend : forall l h w r,
   exists h', apply_steps h w l = (h', w) /\ wrapper_of h' w r /\
              r_vals (get_reg h' r) = (r_vals (get_reg h r) ++ vals_of l)%list /\
              r_func (get_reg h' r) = r_func (get_reg h r) /\
-             r_patcher (get_reg h' r) = last_has l (r_patcher (get_reg h r)).
+             r_patcher (get_reg h' r) = last_has l (r_patcher (get_reg h r)) /\ h_objs h' = h_objs h.
 Proof. exact steps_on_wrapper. Qed.
 Print Assumptions C09_extend.
 (* grouping with chain and splitting a stack anywhere change nothing: only the flattened sequence of steps matters *)
